@@ -378,6 +378,25 @@ type Opaque struct {
 func (vm *VM) sprintf(format Value, args []Value) Value {
 	f, ok := format.(string)
 	if !ok {
+		// a symbolic format is understood when it cannot contain a directive: concrete parts
+		// without '%', the rest decimal renderings of numbers; with no operands it prints as it is
+		if ss, isSym := format.(*SymStr); isSym && len(args) == 0 {
+			plain := true
+			for _, a := range ss.Atoms {
+				switch a.Kind {
+				case aConc:
+					if strings.Contains(a.S, "%") {
+						plain = false
+					}
+				case aDec:
+				default:
+					plain = false
+				}
+			}
+			if plain {
+				return format
+			}
+		}
 		vmErr("Sprintf with symbolic format")
 	}
 	var atoms []Atom
